@@ -88,6 +88,7 @@ func c14Menu(c lockCfg, thorough bool) func(w *engb.World, st *engb.LState, dept
 		{Dt: 1, Ops: []engb.LOp{{Kind: "unlock", Val: 0, Token: 0, Amt: amt(1)}}},
 		{Dt: 1, Ops: []engb.LOp{{Kind: "weight", Token: 0, U64: 2}}},
 		{Dt: 1, Ops: []engb.LOp{{Kind: "threshold", Token: 0, Amt: amt(1)}}},
+		{Dt: 1, Ops: []engb.LOp{{Kind: "threshold", Token: 1, Amt: amt(1)}}}, // a threshold on a token nobody holds yet
 		{Dt: 1, Absent: []int{0}, Ops: []engb.LOp{{Kind: "lock", Val: 0, Token: 0, Amt: amt(1)}}},
 		{Dt: 1, Absent: []int{0}, Evidence: []engb.EvSpec{{Val: 0, AgeBlocks: 1, AgeSecs: 1}}},
 	}
